@@ -21,6 +21,7 @@ class Harness(Exception):
 
 # ----------------------------------------------------------------------------- property definitions
 class Prop:
+    owns_determinism = False
     id = "?"
     level = "exploration"
     scenarios = {}  # name -> {"quick": n | "all", "thorough": n | "all", "sampled": bool}
@@ -43,6 +44,7 @@ class Prop:
 
 
 class C15(Prop):
+    owns_determinism = True
     id = "C15"
     scen_order = ["pairs", "triples", "reuse", "interleave"]
     counts = {
@@ -236,7 +238,8 @@ def run_worker(args):
     prop = get_prop(args["prop"])
     seed, w, n = args["seed"], args["w"], args["n"]
     acc = new_acc()
-    out = {"name": args["name"], "runs": {}, "violations": [], "nviol": 0, "digests": {}, "samples": [], "gate": seams.GATE}
+    out = {"name": args["name"], "runs": {}, "violations": [], "nviol": 0, "nnew": 0, "known_hits": {}, "digests": {}, "samples": [], "gate": seams.GATE}
+    known = load_known()
     table_start = reference_table(include_corpus=False)
     fp_start = module_fingerprint()
     for scen, total in args["work"]:
@@ -257,12 +260,17 @@ def run_worker(args):
                 dg[str(index)] = [res["digest"], res["sched_digest"], bool(res["violations"])]
             if res["violations"]:
                 out["nviol"] += 1
-                if len(out["violations"]) < MAX_REPORTED:
-                    rep = {"scenario": scen, "index": index, "spec": spec, "schedule": res["schedule"],
-                           "violations": res["violations"], "digest": res["digest"]}
-                    if hasattr(prop, "annotate"):
-                        prop.annotate(rep)
-                    out["violations"].append(rep)
+                rep = {"scenario": scen, "index": index, "spec": spec, "schedule": res["schedule"],
+                       "violations": res["violations"], "digest": res["digest"]}
+                if hasattr(prop, "annotate"):
+                    prop.annotate(rep)
+                kf = match_known(prop.id, rep, known)
+                if kf is not None:
+                    out["known_hits"][kf["id"]] = out["known_hits"].get(kf["id"], 0) + 1
+                else:
+                    out["nnew"] += 1
+                    if len(out["violations"]) < MAX_REPORTED:
+                        out["violations"].append(rep)
             elif len(out["samples"]) < 2 and done > 3 and len(json.dumps(spec)) < 6000:
                 out["samples"].append({"scenario": scen, "index": index, "spec": spec, "schedule": res["schedule"], "digest": res["digest"]})
         out["runs"][scen] = done
@@ -368,37 +376,35 @@ def run_check(pid, tier, seed, nworkers):
         # violations -> minimise -> replay files
         reports = [v for r in workers for v in r["violations"]]
         nviol_runs = sum(r["nviol"] for r in workers)
+        new_runs = sum(r["nnew"] for r in workers)
         known = load_known()
         lines, new_viol, known_hits = [], 0, {}
+        for r in workers:
+            for k, v in r["known_hits"].items():
+                known_hits[k] = known_hits.get(k, 0) + v
         os.makedirs(os.path.join(VERIF, "replays"), exist_ok=True)
-        to_min = []
-        for rep in reports:
-            kf = match_known(pid, rep, known)
-            if kf:
-                known_hits[kf["id"]] = known_hits.get(kf["id"], 0) + 1
-                continue
-            to_min.append(rep)
-        minimised = minimise_reports(pid, to_min[:4], wd, wall) if to_min else []
+        reports.sort(key=lambda r: len(json.dumps(r["spec"])))
+        minimised = minimise_reports(pid, reports[:4], wd, wall) if reports else []
         for rep in minimised:
-            kf = match_known(pid, rep, known)
-            if kf:
-                known_hits[kf["id"]] = known_hits.get(kf["id"], 0) + 1
-                continue
             path = os.path.join(VERIF, "replays", "%s-%s-%d.json" % (pid, rep["scenario"], rep["index"]))
             with open(path, "w") as f:
                 json.dump({"property": pid, "seed": seed, "scenario": rep["scenario"], "index": rep["index"], "spec": rep["spec"],
                            "schedule": rep["schedule"], "violations": rep["violations"], "digest": rep["digest"],
-                           "minimised": rep.get("minimised", False), "original_size": rep.get("original_size")}, f, indent=1)
+                           "minimised": rep.get("minimised", False), "original_size": rep.get("original_size"), "minimised_size": rep.get("minimised_size"),
+                           "minimiser_runs": rep.get("minimiser_runs")}, f, indent=1)
             v0 = rep["violations"][0]
             lines.append("VIOLATION property=%s replay=%s" % (pid, path))
             lines.append("  oracle=%s task=%s op=%s at %s" % (v0["oracle"], v0["task"], v0["op"], v0["path"]))
             lines.append("  expected: %s" % v0.get("expected"))
             lines.append("  actual:   %s" % v0.get("actual"))
-            new_viol += 1
+        new_viol = new_runs
         seen_kinds = set()
         for kind, text in problems:
             if kind in ("det", "poison") and kind not in seen_kinds:
                 seen_kinds.add(kind)
+                if not prop.owns_determinism:
+                    lines.append("NOTE: %s (determinism and module-state independence are decided by the C15 check, not here)" % text)
+                    continue
                 path = os.path.join(VERIF, "replays", "%s-%s.json" % (pid, kind))
                 with open(path, "w") as f:
                     json.dump({"property": pid, "seed": seed, "kind": kind, "detail": text}, f, indent=1)
@@ -410,7 +416,7 @@ def run_check(pid, tier, seed, nworkers):
             if kf.get("status") == "open" and kf.get("property") == pid:
                 lines.append("KNOWN-FINDING: property=%s %s: %s (hit %d times in this run)" % (pid, kf["id"], kf["what"], known_hits.get(kf["id"], 0)))
         wall_s = time.time() - t0
-        write_evidence(prop, tier, seed, merged, wall_s, new_viol + (nviol_runs - len(reports) if nviol_runs > len(reports) else 0), known_hits, nworkers)
+        write_evidence(prop, tier, seed, merged, wall_s, new_viol, known_hits, nworkers)
         for ln in lines:
             print(ln)
         total_runs = sum(merged["runs"].values())
